@@ -2,6 +2,7 @@ package main
 
 import (
 	"fmt"
+	"strings"
 	"time"
 	"unicode/utf8"
 
@@ -16,9 +17,12 @@ func genInput(r *rng, p *pat, allowLong bool) InputSpec {
 	fr := p.Frags
 	pick := func() string { return fr[r.n(len(fr))] }
 	var s string
+	var cuts []int // fragment boundaries
 	for k := r.n(9); k > 0; k-- {
+		cuts = append(cuts, len(s))
 		s += pick()
 	}
+	cuts = append(cuts, len(s))
 	if allowLong && r.chance(1, 7) {
 		unit := pick()
 		if r.chance(1, 2) || unit == "" {
@@ -34,8 +38,12 @@ func genInput(r *rng, p *pat, allowLong bool) InputSpec {
 		}
 		return InputSpec{Pre: s, Unit: unit, Rep: rep, Suf: pick()}
 	}
-	if r.chance(1, 12) {
-		s += "\xff" // invalid UTF-8
+	if r.chance(1, 9) {
+		// invalid UTF-8 (one byte wide, decodes to U+FFFD), the real U+FFFD (three bytes), a truncated
+		// sequence, a non-BMP rune: anywhere, so that captures behind it have shifted byte offsets
+		bad := []string{"\xff", "\uFFFD", "\xf0\x9f", "\xc3", "\U0001F600", "\xff\uFFFD"}[r.n(6)]
+		at := cuts[r.n(len(cuts))]
+		s = s[:at] + bad + s[at:]
 	}
 	return InputSpec{Pre: s}
 }
@@ -515,6 +523,20 @@ func genC12(seed uint64, tier string) *Scenario {
 			// a quick call under a (generous) deadline: starts and later stops the clock
 			op.TimeoutNs = 0
 		}
+		if n := len(cl.Ops); n > 0 && !isSilentOp(cl.Ops[n-1].Kind) && cl.Ops[n-1].In.Rep == 0 && r.chance(1, 7) {
+			// the previous call's text once more through another entry point (string vs runes), or a text that
+			// decodes to the same runes from different bytes: nothing keyed by the decoded text may be reused
+			op.In = cl.Ops[n-1].In
+			switch r.n(3) {
+			case 0:
+				op.In.Pre = strings.ReplaceAll(op.In.Pre, "\xff", "\uFFFD")
+			case 1:
+				op.In.Pre = strings.ReplaceAll(op.In.Pre, "\uFFFD", "\xff")
+			}
+			if op.Kind == OpFindStringAt || op.Kind == OpFindRunesAt || op.Kind == OpReplaceAt {
+				op.StartAt = 0
+			}
+		}
 		cl.Ops = append(cl.Ops, op)
 	}
 	// drop operations whose sequential run exceeds the cap; give timed quick calls a safe deadline
@@ -538,6 +560,7 @@ func genC12(seed uint64, tier string) *Scenario {
 	sc.Clients = []Client{cl}
 	cfg.Alphabet = alphabetOf(sc)
 	sc.Cfg = cfg
+	viaUnmarshal(r, sc, 1, 6)
 	nameOps(sc)
 	return sc
 }
